@@ -146,10 +146,12 @@ PROPS["C20"] = {
     "technique": "reference-model monitor (strict running maximum of delivered nomination values and its pair) evaluated after every delivery in a scripted-peer session, plus a two-agent quiescence oracle (mirror image of the pair that carried the highest delivered value) with the scheduler permuting requests and responses",
     "level_text": "Controlled agent vs scripted controlling peer: 1-6 nominations with explicit values (increasing, equal, decreasing, 1, 2^24-1) on pairs that are waiting / in progress / succeeded, "
                   "every delivery order incl. duplicates, responses to the agent's triggered checks withheld and released later (the deferred path). Two agents: RenominateCandidate through the public API on valid pairs, "
-                  "requests and responses reordered, duplicated and lost (lost nominations re-issued). Error clauses for controlled agents and the feature switched off.",
-    "level_note": "Only nominations carrying a value are used here (plain USE-CANDIDATE is C03's). Schedules are sampled.",
+                  "requests and responses reordered, duplicated and lost (lost nominations re-issued). Error clauses for controlled agents and the feature switched off. "
+                  "Later additions: the scripted peer's addresses may be signalled only in the middle of the exchange (deferred nominations across prflx supersession); copies of the plain initial USE-CANDIDATE are interleaved with the valued nominations; "
+                  "a two-agent part with WithAutomaticRenomination (the controlling agent renominates by itself during check rounds; reordering, duplication and arbitrary delay, no loss).",
+    "level_note": "Plain USE-CANDIDATE before any valued nomination is C03's business; after one it must not change the selection. A renomination is sent once and never retransmitted by the agent: a lost renomination request or response is not recoverable, so loss is only injected where the harness re-issues the nomination. Schedules are sampled.",
     "rule": "case = one session; distinct_nontrivial counts (#sockets, #nominations, max value) and (|A|,|B|,#renominations,lossy) classes",
-    "assumptions": ["default nomination value generator (1,2,3,...) on the controlling agent"],
+    "assumptions": ["default nomination value generator (1,2,3,...) on the controlling agent", "renomination requests are not retransmitted by the agent; convergence after a LOST renomination request/response is not claimed"],
 }
 PROPS["C02"] = {
     "parts": [part("TestVerifC02", q=16, t=16, tq=900)],
